@@ -154,7 +154,6 @@ func cliMake(args []string) int {
 			}
 		}
 	}
-	}
 	// tables
 	var tables []*srcTable
 	nt := 1 + rng.Intn(3)
